@@ -86,6 +86,13 @@ impl Driver {
         let codec = gen::codec(&mut r);
         let mut cfg = gen::cfg_small(&mut r);
         cfg.mps = cfg.mps.max(min_mps(codec));
+        let tiny_ok = arm.c07 || !(arm.c08 || arm.c09 || arm.c10 || arm.c11 || arm.c12 || arm.c13 || arm.c15 || arm.c16 || arm.c19);
+        if r.chance(1, 12) && tiny_ok {
+            // (only where the verdict does not depend on calls running to completion: C07's grammar and
+            // the un-monitored uses by C06/C17) packets so small that only some headers fit (identity encodings vary in length):
+            // sends fail and succeed in turn
+            cfg.mps = r.range(min_mps(codec) as u64 / 5, min_mps(codec) as u64) as usize;
+        }
         // keep forgetting within reach of the virtual clock in some cases
         if r.chance(1, 3) {
             cfg.rda = cfg.p * r.range(2, 30);
